@@ -2,6 +2,7 @@
    executable statement that the harness applies to the implementation - for user-level lists (CAuto) this includes
    "the MapSpecs of the constructed pipeline are an admissible completion" (Proofs/AutoGenFacts.v). *)
 From Verif Require Import Corr.Run_C01x Proofs.StrFacts Proofs.MapRunFacts Proofs.C01Corr Proofs.AutoGenFacts.
+From Verif Require Proofs.AutoGenComplete.
 
 Lemma un_list_map {A} (f : sx -> option A) (g : A -> sx) l :
   (forall x, f (g x) = Some x) -> un_list f (map g l) = Some l.
@@ -64,5 +65,7 @@ Proof.
         now destruct (conforming _ _ _).
     + unfold SErr. rewrite U, map_length, Hlen, Nat.eqb_refl, Hcomp, R, str_eqb_refl. cbn [andb].
       cbn [mkreq c_funcs c_inputs]. now rewrite (prepare_err_not_conforming _ _ _ _ Ep).
-  - unfold SErr. apply str_eqb_refl.
+  - unfold SErr. rewrite str_eqb_refl. cbn [andb]. unfold constructible.
+    destruct (completable (permuted (c_funcs c) order)) eqn:Hc; [|reflexivity]. exfalso.
+    destruct (AutoGenComplete.construct_never_refuses _ Hc) as [eff He]. congruence.
 Qed.
